@@ -566,3 +566,25 @@ func mutateConfig(t *rapid.T, base []PoolT) []PoolT {
 	}
 	return out
 }
+
+// uniformInt draws an integer in [0,n) WITHOUT rapid's bias towards small values (rapid's IntRange / SampledFrom put about 40% of
+// the mass on the first tenth of the range, which turns a weighted list of operation kinds into "mostly the first few kinds").
+// It is built from fair coin flips, so it still shrinks (towards 0) and replays like any other draw.
+func uniformInt(t *rapid.T, n int, label string) int {
+	if n <= 1 {
+		return 0
+	}
+	bits := 0
+	for 1<<uint(bits) < n {
+		bits++
+	}
+	bits += 3 // extra bits keep the modulo bias below 1/8 of a bucket
+	v := 0
+	for _, b := range rapid.SliceOfN(rapid.Bool(), bits, bits).Draw(t, label) {
+		v <<= 1
+		if b {
+			v |= 1
+		}
+	}
+	return v % n
+}
